@@ -45,6 +45,10 @@ def documents(quick):
     docs += dm.decoration_sweep()[:: (40 if quick else 8)]
     docs += [(l, d) for l, d in dm.comment_sweep(1) if l.startswith(("CM:AA:", "CM:B_A:meta_sep", "CM:S_A:nometa")) and "hc:" not in l]     # every single comment place, incl. footer comments
     docs.append(("X:own-seal-section", Doc([A("K", S("v")), Sec("9", "SEAL", [A("NOTE", S("mine"))]), A("Z", I(1))])))
+    from .c01_model import verbatim_docs
+    docs += [("X:" + l, d) for l, d in verbatim_docs()]          # lines whose canonical form ends in blanks (zones, frontmatter, empty comment)
+    docs.append(("X:typed-leaves-in-inline-maps", Doc([A("K", dm.Lst(dm.Map(("PATTERN", I(5))), dm.Map(("REGEX", Bo(True))), dm.Map(("PATTERN", dm.NULL)), dm.Map(("OTHER", I(5))),
+                                                                      I(7), Bo(False), dm.NULL, S("5", "quoted"))), A("Z", I(1))])))
     docs.append(("X:nested-seal-block", Doc([B("SEAL", [A("K", S("v"))]), B("B1", [Sec("1", "SEAL", [A("Q", S("q"))])])])))
     return docs
 
@@ -108,6 +112,44 @@ def mutations(m):
         return cur
 
     sites_ = [(p, n) for p, n in body_paths(m["body"], ()) if not (n[0] == "S" and n[1] == "SEAL" and n[2] == "SEAL" and len(p) == 1)]
+    # a node appended at the very end of the document, AFTER the SEAL section
+    for extra in (A("TAIL", S("t")), B("TAILB", [A("K", S("v"))]), Sec("99", "TAILS", [A("K", S("v"))])):
+        mm = copy.deepcopy(m)
+        mm["body"].append(extra)
+        out.append(("append-after-seal", mm))
+
+    def leaf_variants(v):
+        """(value with exactly one scalar leaf inside a list / inline map replaced by a value of the same and of another type)"""
+        if v[0] == "list":
+            for i, it in enumerate(v[1]):
+                if it[0] == "map":
+                    for j, (kk, vv) in enumerate(it[1]):
+                        if vv[0] in ("str", "int", "float", "bool", "null"):
+                            for nv in other_value(vv):
+                                pairs = list(it[1])
+                                pairs[j] = (kk, nv)
+                                items = list(v[1])
+                                items[i] = ("map", pairs)
+                                yield ("list", items)
+                elif it[0] == "list":
+                    for sub in leaf_variants(it):
+                        items = list(v[1])
+                        items[i] = sub
+                        yield ("list", items)
+                elif it[0] in ("str", "int", "float", "bool", "null"):
+                    for nv in other_value(it):
+                        items = list(v[1])
+                        items[i] = nv
+                        yield ("list", items)
+
+    for p, n in sites_:
+        if n[0] == "A" and n[2][0] == "list":
+            for nv in leaf_variants(n[2]):
+                mm = copy.deepcopy(m)
+                node = list(get(mm, p))
+                node[2] = nv
+                container(mm, p)[p[-1]] = tuple(node)
+                out.append(("retype-leaf-in-list", mm))
     for p, n in sites_:
         if n[0] == "A":
             same, other = other_value(n[2])
@@ -394,7 +436,8 @@ def check_cli(case) -> Res:
                 seen_k.add(kinds)
                 viol.append(dict(descriptor=f"cli:cosmetic-respelling-not-VERIFIED:{kinds}", case=dict(cs0, choices={str(k): v for k, v in ch.items()}),
                                  observed=f"exit={q.exit_code} {q.output[-160:]!r} text={rr.text!r}"[:700], expected="Seal: VERIFIED and exit 0"))
-    tamp = [(t, mm) for t, mm in mutations(m)[:12] + hash_mutations(m)[:3]]
+    allm = mutations(m)
+    tamp = [(t, mm) for t, mm in [x for x in allm if x[0] in ("append-after-seal", "retype-leaf-in-list")][:40] + allm[:12] + hash_mutations(m)[:3]]
     seen = set()
     for tag, mm in tamp:
         if norm(dm.dcontent(mm)) == norm(dm.dcontent(m)):
@@ -425,7 +468,8 @@ def run(ctx):
     docs = documents(ctx.quick)
     ctx.coverage["bounds"] = {"documents": len(docs)}
     ctx.explore("seal_api", docs, check_doc, chunk=6)
-    ctx.explore("seal_cli", docs[:: (6 if ctx.quick else 2)], check_cli, chunk=4)
+    cli_docs = [x for x in docs if x[0].startswith("X:")] + [x for x in docs if not x[0].startswith("X:")][:: (6 if ctx.quick else 2)]
+    ctx.explore("seal_cli", cli_docs, check_cli, chunk=4)
     sl.cleanup()
 
 
